@@ -20,6 +20,7 @@ func Isolated(worker string, items []json.RawMessage, nWorkers int, extraArgs ..
 		in     io.WriteCloser
 		out    *bufio.Reader
 		stderr *bytes.Buffer
+		last   int // index of the item answered last by this worker (-1: none)
 	}
 	start := func() *wk {
 		cmd := exec.Command(os.Args[0], append([]string{worker}, extraArgs...)...)
@@ -30,22 +31,14 @@ func Isolated(worker string, items []json.RawMessage, nWorkers int, extraArgs ..
 		if err := cmd.Start(); err != nil {
 			Die("cannot start worker: %v", err)
 		}
-		return &wk{cmd: cmd, in: in, out: bufio.NewReaderSize(so, 1<<20), stderr: eb}
+		return &wk{cmd: cmd, in: in, out: bufio.NewReaderSize(so, 1<<20), stderr: eb, last: -1}
 	}
 	res := make([]json.RawMessage, len(items))
 	pool := sync.Pool{}
 	var all []*wk
 	var mu sync.Mutex
-	Parallel(len(items), nWorkers, func(i int) {
-		var w *wk
-		if v := pool.Get(); v != nil {
-			w = v.(*wk)
-		} else {
-			w = start()
-			mu.Lock()
-			all = append(all, w)
-			mu.Unlock()
-		}
+	// ask sends one item to a worker and waits for its answer; ok=false when the worker died instead of answering
+	ask := func(w *wk, i int) (answer json.RawMessage, crash json.RawMessage, ok bool) {
 		_, _ = w.in.Write(append(append([]byte(nil), bytes.TrimSpace(items[i])...), '\n'))
 		line, err := w.out.ReadBytes('\n')
 		if err != nil || len(bytes.TrimSpace(line)) == 0 {
@@ -67,10 +60,50 @@ func Isolated(worker string, items []json.RawMessage, nWorkers int, extraArgs ..
 				first = "worker exited: " + w.cmd.ProcessState.String()
 			}
 			raw, _ := json.Marshal(map[string]string{"crash": first, "stderr": msg})
-			res[i] = raw
+			return nil, raw, false
+		}
+		return append(json.RawMessage(nil), bytes.TrimSpace(line)...), nil, true
+	}
+	Parallel(len(items), nWorkers, func(i int) {
+		var w *wk
+		if v := pool.Get(); v != nil {
+			w = v.(*wk)
+		} else {
+			w = start()
+			mu.Lock()
+			all = append(all, w)
+			mu.Unlock()
+		}
+		ans, crash, ok := ask(w, i)
+		if !ok {
+			// A panic in a goroutine of the library may kill the worker a moment after it answered the previous
+			// item: run this item again on a fresh worker; if it is answered there, the crash belongs to the previous one.
+			prev := w.last
+			w = start()
+			mu.Lock()
+			all = append(all, w)
+			mu.Unlock()
+			ans2, crash2, ok2 := ask(w, i)
+			if ok2 {
+				mu.Lock()
+				if prev >= 0 {
+					res[prev] = crash
+				}
+				res[i] = ans2
+				mu.Unlock()
+				w.last = i
+				pool.Put(w)
+				return
+			}
+			mu.Lock()
+			res[i] = crash2
+			mu.Unlock()
 			return // the dead worker is not put back
 		}
-		res[i] = append(json.RawMessage(nil), bytes.TrimSpace(line)...)
+		mu.Lock()
+		res[i] = ans
+		mu.Unlock()
+		w.last = i
 		pool.Put(w)
 	})
 	for _, w := range all {
